@@ -128,14 +128,18 @@ CLAIMED = {
         "design_ref": "DESIGN.md §6 C11",
     },
     "C12": {
-        "text": "Partial proof: Lean 4 theorems (Props/C12.lean) show that every delimited format DataFormat.validate accepts yields a csv dialect fit for the round "
-                "trip (C12_goodcfg_of_accepted) and that, in the doublequote dialect, a quoted cell with arbitrary content (delimiters, quotes, CR, LF) is read back "
-                "exactly by the transcription of CPython's _csv reader fused with universal-newline splitting (C12_quoted_cell_partial). The lifting to rows/tables "
-                "and the escape-character dialect rest on the correspondence: all accepted combinations of 14 delimiters x 20 quotes x 2 escapes x 2 quoting modes "
-                "(x 4 line delimiters thorough) x tables built from the configured special characters, written and read by the real code and by the model.",
-        "note": "Trusted: Lean kernel; the Lean transcription of _csv writer/reader (validated against the real module on every case, including written text); "
-                "the table-level theorem is not proved yet, so the universal claim is carried by the proof only at cell level.",
-        "technique": "Lean 4 proof (partial: dialect admissibility + quoted-cell lemma) + exhaustive configuration x content correspondence",
+        "text": "Lean 4 theorems (Props/C12.lean): for every csv dialect satisfying GoodCfg (both families cutplace can configure: quote doubling, or a distinct "
+                "escape character; quote-all or minimal quoting) and every table of any size whose rows have at least one cell, cells over all characters, the "
+                "writer produces a text and the reader - the transcription of CPython's _csv reader fused with universal-newline line splitting - returns "
+                "exactly that table (C12_roundtrip, by induction over cells, rows and tables; helper lemmas in Proofs/CsvRoundTrip.lean). Every delimited format "
+                "DataFormat.validate accepts is a GoodCfg (C12_goodcfg_of_accepted), hence round-trips (C12_accepted_roundtrip); a refused format is shown "
+                "not to round-trip (counterexample by decide). Correspondence: all accepted combinations of 14 delimiters x 20 quotes x 2 escapes x 2 quoting "
+                "modes x line delimiters x tables built from the configured special characters, written and read by the real code and by the model, texts "
+                "and rows compared.",
+        "note": "Trusted: Lean kernel; the Lean transcription of the _csv writer/reader and of universal-newline splitting (validated against the real modules on "
+                "every case, including the written text); encoding to bytes is modelled as identity on characters (the harness uses utf-8 and the encodings "
+                "list for sampled checks).",
+        "technique": "Lean 4 proof (induction over cells/rows/tables of the csv writer and reader automaton) + exhaustive configuration x content correspondence",
         "design_ref": "DESIGN.md §6 C12",
     },
     "C14": {
